@@ -473,10 +473,56 @@ func diffIssueMaps(a, b map[string][]string) string {
 // C13 – Parse and Validate agree on fully populated values
 
 func init() {
-	Register(&Scenario{ID: "C13", Gen: genC13, Run: runC13,
+	Register(&Scenario{ID: "C13", Gen: genC13, Run: runC13, Valid: validC13,
 		Rule: "a world is a schema without Preprocess and 1-3 fully populated values of its destination type (no zero leaf, no empty slice, no nil pointer); each is validated in place and parsed from the map it " +
 			"would be decoded from into a fresh destination, under independently drawn visit orders and pool states; issues (path, code, type, message) and resulting values must agree; " +
 			"non-trivial iff the value has >=2 leaves and at least one issue or one catch/default node; distinct by hash of (schema, values, decision vectors)"})
+}
+
+// validC13: the property speaks about fully populated values only.
+func validC13(w *World) bool {
+	if len(w.Schemas) == 0 {
+		return false
+	}
+	for _, t := range w.Tasks {
+		for _, op := range t {
+			if op.Kind == "validate" && !fullyPopulated(w.Schemas[0], op.Input) {
+				return false
+			}
+		}
+	}
+	return true
+}
+
+func fullyPopulated(n *Node, v Val) bool {
+	switch n.Kind {
+	case "struct":
+		if v.K != "m" {
+			return false
+		}
+		for _, f := range n.Fields {
+			fv, ok := v.Get(f.Key)
+			if !ok || !fullyPopulated(f.N, fv) {
+				return false
+			}
+		}
+		return true
+	case "slice":
+		if v.K != "l" || len(v.L) == 0 {
+			return false
+		}
+		for _, e := range v.L {
+			if !fullyPopulated(n.Elem, e) {
+				return false
+			}
+		}
+		return true
+	case "ptr", "pre":
+		return !v.IsNil() && fullyPopulated(n.Elem, v)
+	case "custom":
+		return !v.IsNil()
+	}
+	return !v.IsNil() && !validateAbsent(n, MIn{V: v}) && !(v.K == "s" && isBlank(v.S))
 }
 
 func genC13(r *Rng, tier string) *World {
@@ -485,6 +531,8 @@ func genC13(r *Rng, tier string) *World {
 	c.without("pre")
 	c.PPT = Pick(r, []float64{0, 0.2})
 	c.PValid = Pick(r, []float64{0.4, 0.7, 0.9})
+	c.Widths = true
+	c.BigInts = true
 	root := GenNode(r, &c, 0, true)
 	// both modes name a field by its `zog` tag (no source tag is involved for a plain map); other tags are dropped here
 	root.Walk(func(n *Node) {
